@@ -47,6 +47,7 @@ STIMULI = {
     "checksum_unack": ("D", "FILE_CHECKSUM_FAILURE", "unack", None),
     "size_error_eof": ("D", "FILE_SIZE_ERROR", None, None),
     "size_error_fd": ("D", "FILE_SIZE_ERROR", None, None),
+    "size_error_fd_race": ("D", "FILE_SIZE_ERROR", None, None),
     "reject_create": ("D", "FILESTORE_REJECTION", None, None),
     "reject_truncate": ("D", "FILESTORE_REJECTION", None, None),
     "reject_write_perm": ("D", "FILESTORE_REJECTION", None, None),
@@ -82,7 +83,7 @@ class StimPlan(Plan):
                 # every copy of this segment is corrupted the same way (also retransmissions), so the checksum can never match
                 self.applied.append((idx, "flip", wire.short(d), side))
                 return [("now", nr)]
-        if side == "S" and k == "EOF" and d.get("cond") == "NO_ERROR" and ("size_error_eof" in st or "size_error_fd" in st):
+        if side == "S" and k == "EOF" and d.get("cond") == "NO_ERROR" and ("size_error_eof" in st or "size_error_fd" in st or "size_error_fd_race" in st):
             small = max(0, d["size"] - 3)
             conf = pdugen.conf(d["h"]["src"], d["h"]["dst"], d["h"]["seq"], idw=d["h"]["idw"], seqw=d["h"]["seqw"], mode="unack" if d["h"]["unack"] else "ack", crc=d["h"]["crc"])
             nr = pdugen.raw("EOF", conf, {"size": small, "cksum": bytes.fromhex(d["cksum"])})
@@ -92,6 +93,10 @@ class StimPlan(Plan):
             # the last segment overtaken by the (shrunk) EOF
             self.applied.append((idx, "delay", wire.short(d), side))
             return [(("delay", 2), raw)]
+        if side == "S" and k == "FD" and "size_error_fd_race" in st and d.get("offset", 0) + d.get("dlen", 0) >= 9:
+            # every copy of the last segment is held back and handed over in the call that detects the next timer expiry
+            self.applied.append((idx, "race", wire.short(d), side))
+            return [("race", raw)]
         return [("now", raw)]
 
 
@@ -317,8 +322,18 @@ def run_case(case):
                         obs["sender_cancel_without_transaction_finished"] = obs.get("sender_cancel_without_transaction_finished", 0) + 1
                 else:
                     fins = [x for x in following if x["kind"] == "ind_finished" and x["side"] == "D" and mine(x)]
-                    later_override = any(x["kind"] == "declare" and x["side"] == "D" for x in following) or any(
+                    # a cancellation received from the peer may replace the condition; a second local fault may only do so after this
+                    # cancellation was reported (a cancelled transaction does not run its procedures any further)
+                    first_report = fins[0]["seq"] if fins else float("inf")
+                    later_override = any(x["kind"] == "declare" and x["side"] == "D" and x["seq"] > first_report for x in following) or any(
                         x["kind"] == "rx" and x["side"] == "D" and x["d"].get("kind") == "EOF" and x["d"].get("cond") not in (None, "NO_ERROR") for x in following)
+                    second = next((x for x in following if x["kind"] == "declare" and x["side"] == "D" and x["seq"] < first_report and x["tid"] == tid), None)
+                    if second is not None:
+                        viol.append(dict(where, clause="further-fault-declared-by-cancelled-transaction", second=second["cond"], step=second["step"]))
+                    naks = [wire.short(wire.describe(x["raw"])) for x in following if x["kind"] == "enq" and x["side"] == "D" and x["raw"] and x["seq"] < first_report
+                            and wire.kind_of(x["raw"]) == "NAK"]
+                    if naks and fins:
+                        viol.append(dict(where, clause="nak-emitted-by-cancelled-transaction", naks=naks[:3]))
                     if not fins:
                         if outcome == "done":
                             viol.append(dict(where, clause="cancellation-not-reported-to-user"))
@@ -354,6 +369,18 @@ def run_case(case):
                 if state_after == "IDLE" and not finished_in_call and side == "D" and not later_declaration:
                     viol.append(dict(where, clause="ignored-fault-dropped-the-transaction"))
                 obs["ignores_judged"] = obs.get("ignores_judged", 0) + 1
+        # one fault event = one declaration: the same condition declared twice inside one API call means two callbacks for one event
+        call_id = 0
+        seen = {}
+        for x in evs:
+            if x["kind"] == "call":
+                call_id += 1
+            elif x["kind"] == "declare":
+                key = (call_id, x["side"], x["cond"])
+                if key in seen:
+                    viol.append({"clause": "same-fault-declared-twice-in-one-call", "side": x["side"], "cond": x["cond"], "step": x["step"], "stimuli": stim})
+                    break
+                seen[key] = True
         # indications which refer to a missing transaction id
         for x in evs:
             if x["kind"].startswith("ind_") and "tid" in x and x["tid"] is None:
